@@ -76,6 +76,7 @@ class Summary:
         self.writes = {}        # param -> list of (certain, lineno, how)
         self.ret = EMPTY        # AV over the parameters
         self.stores = {}        # param -> {(param2, certain)}
+        self.stores_direct = {} # param -> {(param2, certain)}: param2 *itself* (not only what it contains) becomes reachable from param
         self.external = []      # calls treated by assumption
         self.unsupported = []
     def as_dict(self):
@@ -129,6 +130,9 @@ class Analyzer:
             for q, d in value.r:
                 if q != p:
                     self.sum.stores.setdefault(p, set()).add((q, c and d))
+            for q, d in value.d:
+                if q != p:
+                    self.sum.stores_direct.setdefault(p, set()).add((q, c and d))
 
     def root_name(self, e):
         while isinstance(e, (ast.Subscript, ast.Attribute)):
@@ -540,7 +544,7 @@ def summary_of(mod, qual):
     return s2
 
 
-def check_frame(mod, qual, modifies=(), fresh_result=False, result_may_share=()):
+def check_frame(mod, qual, modifies=(), fresh_result=False, result_may_share=(), keep_elements_of=()):
     """-> list of (name, status, detail) obligations for one function"""
     s = summary_of(mod, qual)
     out = []
@@ -565,9 +569,15 @@ def check_frame(mod, qual, modifies=(), fresh_result=False, result_may_share=())
     for p, st in s.stores.items():
         if p in modifies:
             for q, c in st:
-                if q not in modifies and q in s.params and q not in result_may_share:
+                if q not in modifies and q in s.params and q not in result_may_share and q not in keep_elements_of:
                     out.append((f'no_capture[{q}->{p}]', 'refuted' if c else 'undecided',
                                 f'memory of parameter {q} becomes reachable from the overwritten parameter {p}'))
+    # containers whose *elements* may be kept (a node keeps the edge objects it is given) but which must be copied themselves
+    for p in modifies:
+        for q, c in sorted(getattr(s, 'stores_direct', {}).get(p, ())):
+            if q in keep_elements_of:
+                out.append((f'no_capture[{q}->{p}]', 'refuted' if c else 'undecided',
+                            f'the container passed as {q} itself (not a copy of it) becomes reachable from {p}'))
     cb = [(p, ws) for p, ws in s.writes.items() if p.startswith('<result of ')]
     if any(p.startswith('<result of ') for p in list(s.writes) + [q for p, c in s.ret.r for q in [p]]) or any('callable argument' in x for x in s.external):
         bad = [f'{p} written at line {ln}: {how}' for p, ws in cb for c, ln, how in ws if c]
